@@ -27,6 +27,25 @@ def _hook(v, val):
             c = re.compile(rx.args[0], rx.args[1])
         else:
             c = re.compile(ev(rx, val, hooks))
+        extra, kw = [], {}
+        for x in v.args[4:]:
+            if isinstance(x, T) and x.op == 'kw':
+                kw[x.args[0]] = ev(x.args[1], val, hooks)
+            else:
+                extra.append(ev(x, val, hooks))
+        if extra or kw:
+            # re.sub(pattern, repl, string, count=0, flags=0)
+            fn = getattr(re, v.args[0].rsplit('.', 1)[1]) if \
+                v.args[0].startswith('re.s') else None
+            try:
+                if fn is not None:
+                    return fn(c, repl, s, *extra, **kw)
+                return getattr(c, v.args[0].rsplit('.', 1)[1])(
+                    repl, s, *extra, **kw)
+            except (re.error, ValueError):
+                raise Raised('re.error')
+            except TypeError:
+                raise Raised('TypeError')
         try:
             return getattr(c, v.args[0].rsplit('.', 1)[1])(repl, s)
         except re.error:
@@ -101,7 +120,9 @@ def _is_message(t):
     if isinstance(t, T) and t.op == 'call' and t.args[0] in (
             're.sub', 're.subn', 're.Pattern.sub', 're.Pattern.subn',
             'str'):
-        return _is_message(t.args[-1])
+        if t.args[0] == 'str':
+            return _is_message(t.args[1])
+        return len(t.args) > 3 and _is_message(t.args[3])
     if isinstance(t, T) and t.op == 'item':
         return _is_message(t.args[0])
     return False
@@ -443,6 +464,20 @@ def _pipeline(ctx, keys):
                         check('two secrets', '%s + %s' % tuple(sorted(
                             (r1, r2))), a[0] + ' ; ' + b[0],
                             a[1] + ' ; ' + b[1])
+        # three and four secrets for one key in the same rendering
+        for key in ('password', 'sslkey', 'secret'):
+            for rname, _m, _w in renderings(key, 'x', mask):
+                if rname in ("'key': 'value'", '"key": "value"',
+                             "u'key': u'value'", "'key', '--flag', 'value'"):
+                    continue
+                for count in (3, 4):
+                    parts = [renderings(key + str(i), 'v%d' % i, mask)
+                             for i in range(1, count + 1)]
+                    pick = [[p for p in ps if p[0] == rname][0]
+                            for ps in parts]
+                    check('many secrets', rname,
+                          ' ; '.join(p[1] for p in pick),
+                          ' ; '.join(p[2] for p in pick))
         # known-finding probes (recorded under their own constructs)
         check('probe', 'dict rendering followed by more quoted text',
               "{'password': 'x', 'user': 'admin'}",
